@@ -118,7 +118,10 @@ def lookup(o, fname, table_field, load_col, val_col, nrows, top, F_of_edge):
 
     def assms(p):
         return [c for i, c in enumerate(p.pc) if i not in p.dec_idx]
-    o.prove('exactly one returning and one ValueError path', z3.BoolVal(len(rets) == 1 and len(raises) == 1))
+    shape = len(rets) == 1 and len(raises) == 1
+    o.prove('exactly one returning and one ValueError path', z3.BoolVal(shape))
+    if not shape:
+        return b, mx, n, x
     o.prove('returns iff |x| <= max (2 max for ranges)', decs(rets[0]) == (absx <= T), under=assms(rets[0]))
     o.prove('raises ValueError iff |x| > max (2 max for ranges)', decs(raises[0]) == (absx > T), under=assms(raises[0]))
     for i, p in enumerate(rets):
